@@ -103,6 +103,7 @@ def to_case(name, scen, prog, sched, variant, mode="mem"):
 
 SCENARIOS = {
     "race":   {"HasFeed": False, "FeedBackfill": False, "Stops": 0, "FeedInit": "start", "EnterGate": True},
+    "race3":  {"HasFeed": False, "FeedBackfill": False, "Stops": 0, "FeedInit": "start"},
     "order":  {"HasFeed": True, "FeedBackfill": False, "Stops": 0, "FeedInit": "running"},
     "join":   {"HasFeed": True, "FeedBackfill": True, "Stops": 0, "FeedInit": "start"},
     "resume": {"HasFeed": True, "FeedBackfill": True, "Stops": 1, "FeedInit": "start"},
@@ -154,7 +155,7 @@ def run(tier, seed, vh, only_paths=None, mode=None):
         res["mc"] = run_mc(run)
         gen_states = 0
         counts = {}
-        for scen, limit in (("race", 300 if tier == "quick" else None), ("order", None), ("join", 120 if tier == "quick" else 3000),
+        for scen, limit in (("race", 300 if tier == "quick" else None), ("race3", 100 if tier == "quick" else 2000), ("order", None), ("join", 120 if tier == "quick" else 3000),
                             ("resume", 120 if tier == "quick" else 3000), ("dumpstop", None)):
             scheds, distinct = gen_schedules(run, scen)
             gen_states += distinct
@@ -163,7 +164,7 @@ def run(tier, seed, vh, only_paths=None, mode=None):
                 scheds = rnd.sample(scheds, limit)
             for i, sc in enumerate(scheds):
                 variants = ["kv"]
-                if scen == "race":
+                if scen in ("race", "race3"):
                     variants = ["kv", "subdoc", "xattr"]
                 for v in variants:
                     if v == "subdoc" and not set(sc["prog"].values()) <= {"update", "casw", "incr"}:
